@@ -190,3 +190,121 @@ Proof.
     rewrite Forall_app. split; [exact Fa|]. constructor; [lra|constructor].
   - rewrite Forall_app. split; [eapply Forall_impl; [|exact F]; intros; cbv beta in *; lra|constructor; [lra|constructor]].
 Qed.
+
+(* the pieces of a chain are consecutive: piece i runs from point i to point i+1 *)
+Lemma pairs_nth {A} (l : list A) (d : A) i :
+  (S i < length l)%nat -> nth i (pairs l) (d, d) = (nth i l d, nth (S i) l d).
+Proof.
+  revert i. induction l as [|a l IH]; intros i H; [simpl in H; lia|].
+  destruct l as [|b l]; [simpl in H; lia|]. rewrite pairs_cons2'.
+  destruct i as [|i]; [reflexivity|].
+  change (nth (S i) ((a, b) :: pairs (b :: l)) (d, d)) with (nth i (pairs (b :: l)) (d, d)).
+  rewrite IH by (simpl in *; lia). reflexivity.
+Qed.
+
+(* ---------- sorting is determined by the multiset, and commutes with monotone maps ---------- *)
+
+Lemma sorted_perm_eq (l1 l2 : list R) :
+  StronglySorted Rle l1 -> StronglySorted Rle l2 -> Permutation l1 l2 -> l1 = l2.
+Proof.
+  revert l2. induction l1 as [|a l1 IH]; intros l2 S1 S2 P.
+  - apply Permutation_nil in P. subst. reflexivity.
+  - destruct l2 as [|b l2]; [apply Permutation_sym, Permutation_nil in P; discriminate|].
+    inversion S1 as [|? ? S1' F1]; subst. inversion S2 as [|? ? S2' F2]; subst.
+    assert (E : a = b).
+    { assert (Ia : In a (b :: l2)) by (eapply Permutation_in; [exact P|left; reflexivity]).
+      assert (Ib : In b (a :: l1)) by (eapply Permutation_in; [symmetry; exact P|left; reflexivity]).
+      rewrite Forall_forall in F1, F2.
+      destruct Ia as [->|Ia]; [reflexivity|]. destruct Ib as [->|Ib]; [reflexivity|].
+      specialize (F1 b Ib). specialize (F2 a Ia). lra. }
+    subst b. f_equal. apply IH; [assumption|assumption|]. eapply Permutation_cons_inv. exact P.
+Qed.
+
+Lemma sort_perm_eq (l1 l2 : list R) : Permutation l1 l2 -> @sort RNum l1 = @sort RNum l2.
+Proof.
+  intros P. apply sorted_perm_eq; [apply sort_sorted|apply sort_sorted|].
+  rewrite sort_perm, P. symmetry. apply sort_perm.
+Qed.
+
+Lemma sort_dir_perm_eq sg (l1 l2 : list R) :
+  Permutation l1 l2 -> @sort_dir RNum sg l1 = @sort_dir RNum sg l2.
+Proof.
+  intros P. unfold sort_dir. destruct (sg =? -1)%Z.
+  - f_equal. apply sort_perm_eq. apply Permutation_map. exact P.
+  - apply sort_perm_eq. exact P.
+Qed.
+
+Lemma insert_map_incr (f : R -> R) (x : R) (l : list R) :
+  (forall u v, f u <= f v <-> u <= v) ->
+  @insert RNum (f x) (map f l) = map f (@insert RNum x l).
+Proof.
+  intros Hf. induction l as [|y r IH]; [reflexivity|].
+  cbn [map]. rewrite !insR_cons.
+  assert (E : Rleb (f x) (f y) = Rleb x y).
+  { destruct (Rleb x y) eqn:E1.
+    - apply Rleb_true in E1. apply Rleb_true. apply Hf. exact E1.
+    - apply Rleb_false in E1. apply Rleb_false.
+      destruct (Rlt_dec (f y) (f x)) as [L|L]; [exact L|]. exfalso.
+      apply Rnot_lt_le in L. apply (proj1 (Hf _ _)) in L. lra. }
+  rewrite E. destruct (Rleb x y); [reflexivity|]. cbn [map]. rewrite IH. reflexivity.
+Qed.
+
+Lemma sort_map_incr (f : R -> R) (l : list R) :
+  (forall u v, f u <= f v <-> u <= v) -> @sort RNum (map f l) = map f (@sort RNum l).
+Proof.
+  intros Hf. induction l as [|x l IH]; [reflexivity|].
+  cbn [map]. change (@sort RNum (f x :: map f l)) with (@insert RNum (f x) (@sort RNum (map f l))).
+  change (@sort RNum (x :: l)) with (@insert RNum x (@sort RNum l)).
+  rewrite IH. apply insert_map_incr. exact Hf.
+Qed.
+
+(* sort_dir of either direction, as one function of a boolean: down = true means descending *)
+Definition sortd (down : bool) (l : list R) : list R :=
+  if down then map Ropp (@sort RNum (map Ropp l)) else @sort RNum l.
+
+Lemma sort_dir_sortd sg (l : list R) : @sort_dir RNum sg l = sortd (sg =? -1)%Z l.
+Proof. reflexivity. Qed.
+
+(* an increasing map keeps the direction, a decreasing map flips it *)
+Lemma sortd_map_incr (f : R -> R) down (l : list R) :
+  (forall u v, f u <= f v <-> u <= v) -> sortd down (map f l) = map f (sortd down l).
+Proof.
+  intros Hf. destruct down; cbn [sortd]; [|apply sort_map_incr; exact Hf].
+  rewrite map_map.
+  rewrite (map_ext (fun x => - f x) (fun x => (fun z => - f (- z)) (- x)))
+    by (intros; cbv beta; rewrite Ropp_involutive; reflexivity).
+  rewrite <- (map_map Ropp (fun z => - f (- z))).
+  rewrite (sort_map_incr (fun z => - f (- z))).
+  - rewrite !map_map. apply map_ext. intros z. cbv beta. rewrite Ropp_involutive. reflexivity.
+  - intros u v. cbv beta. split; intros H.
+    + assert (H0 : f (- v) <= f (- u)) by lra. apply (proj1 (Hf _ _)) in H0. lra.
+    + assert (H0 : f (- v) <= f (- u)) by (apply (proj2 (Hf _ _)); lra). lra.
+Qed.
+
+Lemma sortd_map_decr (f : R -> R) down (l : list R) :
+  (forall u v, f u <= f v <-> v <= u) -> sortd (negb down) (map f l) = map f (sortd down l).
+Proof.
+  intros Hf. destruct down; cbn [sortd negb].
+  - (* ascending sort of f-values = f of descending sort *)
+    rewrite (map_ext f (fun x => (fun z => f (- z)) (- x))) at 1
+      by (intros; cbv beta; rewrite Ropp_involutive; reflexivity).
+    rewrite <- (map_map Ropp (fun z => f (- z))).
+    rewrite (sort_map_incr (fun z => f (- z))).
+    + rewrite map_map. reflexivity.
+    + intros u v. cbv beta. split; intros H.
+      * apply (proj1 (Hf _ _)) in H. lra.
+      * apply (proj2 (Hf _ _)). lra.
+  - (* descending sort of f-values = f of ascending sort *)
+    rewrite map_map. rewrite (sort_map_incr (fun x => - f x)).
+    + rewrite map_map. apply map_ext. intros z. cbv beta. rewrite Ropp_involutive. reflexivity.
+    + intros u v. cbv beta. split; intros H.
+      * assert (H0 : f v <= f u) by lra. apply (proj1 (Hf _ _)) in H0. exact H0.
+      * assert (H0 : f v <= f u) by (apply (proj2 (Hf _ _)); exact H). lra.
+Qed.
+
+Lemma sortd_perm_eq down (l1 l2 : list R) : Permutation l1 l2 -> sortd down l1 = sortd down l2.
+Proof.
+  intros P. destruct down; cbn [sortd].
+  - f_equal. apply sort_perm_eq. apply Permutation_map. exact P.
+  - apply sort_perm_eq. exact P.
+Qed.
